@@ -7,6 +7,7 @@ import random
 from typing import Any, Dict, Iterable, List, Optional
 
 from harness.core import OUTSIDE, Case, Check, Finding, call, run_driver
+from harness.guard import guarded
 
 MATRIX_MAX = 12   # pairwise relation matrices are compared for line sets up to this size
 # --- ties the statement does not break (see "tie orders" below) ---------------------------------------------
@@ -130,11 +131,62 @@ def _run_lines(specs, dx, dy, matrices: bool) -> Dict[str, Any]:
     for d in ('ltr', 'rtl'):
         out['rd_' + d] = call(lambda: [_lid(x) for x in h.sort_lines_in_reading_direction(lines, reading_direction=d)])
     out['sorted'] = call(lambda: [_lid(x) for x in sorted(lines)])
+    # (A) the list and its lines are USED objects now: every function once more, in the opposite order, on the same
+    # objects — the answers are functions of the layout ("in any order and any number of times") and the caller's
+    # list must come back as it was handed over
+    hist = []
+    if [_lid(x) for x in lines] != [s['id'] for s in specs]:
+        hist.append(f'the input list was reordered / changed: {[_lid(x) for x in lines]}')
+    again = {'sorted': call(lambda: [_lid(x) for x in sorted(lines)])}
+    for d in ('rtl', 'ltr'):
+        again['rd_' + d] = call(lambda: [_lid(x) for x in h.sort_lines_in_reading_direction(lines, reading_direction=d)])
+    again['groups'] = call(lambda: [[_lid(x) for x in g] for g in h.horizontal_group_lines(lines)])
+    for fn, v in again.items():
+        if v != out[fn]:
+            hist.append(f'{fn}: {out[fn]} on the first call, {v} on the second call on the same objects')
+    if _snap_lines(lines, dx, dy) != [(s['id'], s.get('text'), _box_points(s['box'], dx, dy)) for s in specs]:
+        hist.append('id / text / coordinates of the lines changed')
+    out['history'] = hist
     if matrices:
         out['below'] = [[_relval(lambda: a.is_below(b)) for b in lines] for a in lines]
         out['next_to'] = [[_relval(lambda: a.is_next_to(b)) for b in lines] for a in lines]
         out['lt'] = [[_relval(lambda: a < b) for b in lines] for a in lines]
     return out
+
+
+def _snap_lines(lines, dx=0, dy=0):
+    return [(_lid(l), l.text, [tuple(p) for p in l.coords.points]) for l in lines]
+
+
+def _snap_doc(doc):
+    """what the statement observes of a document: ids, boxes and the order of the children at every level"""
+    kids = []
+    for attr in ('columns', 'text_regions', 'extra'):
+        kids.append([_snap_doc(k) for k in (getattr(doc, attr, None) or [])])
+    return (doc.id, [tuple(p) for p in doc.coords.points] if doc.coords is not None else None, kids,
+            _snap_lines(getattr(doc, 'lines', None) or []))
+
+
+def _doc_calls(tree):
+    """(name, function of (helper, document)) for every public entry point and option value the statement names:
+    the three ordering functions themselves and the dispatcher sort_lines_in_reading_order with every combination
+    of row_order and reading_direction, by keyword and by position"""
+    calls = [('regions_ro', lambda h, doc: [int(r.id[1:]) for r in h.sort_regions_in_reading_order(doc)])]
+    for d in ('ltr', 'rtl'):
+        calls.append(('column_' + d, lambda h, doc, d=d: [_lid(x) for x in h.sort_lines_in_column_reading_order(
+            doc, reading_direction=d)]))
+        calls.append(('disp_column_' + d, lambda h, doc, d=d: [_lid(x) for x in h.sort_lines_in_reading_order(
+            doc, row_order=False, reading_direction=d)]))
+        calls.append(('pos_column_' + d, lambda h, doc, d=d: [_lid(x) for x in h.sort_lines_in_reading_order(
+            doc, False, d)]))
+        if tree['type'] != 'page':
+            calls.append(('row_' + d, lambda h, doc, d=d: [_lid(x) for x in h.sort_lines_in_row_reading_order(
+                doc, reading_direction=d)]))
+            calls.append(('disp_row_' + d, lambda h, doc, d=d: [_lid(x) for x in h.sort_lines_in_reading_order(
+                doc, row_order=True, reading_direction=d)]))
+            calls.append(('pos_row_' + d, lambda h, doc, d=d: [_lid(x) for x in h.sort_lines_in_reading_order(
+                doc, True, d)]))
+    return calls
 
 
 def _run_doc(tree, specs, dx, dy) -> Dict[str, Any]:
@@ -144,19 +196,37 @@ def _run_doc(tree, specs, dx, dy) -> Dict[str, Any]:
     def fresh():
         lines = {s['id']: _mk_line(s, dx, dy) for s in specs}
         return _mk_doc(tree, lines, dx, dy)
-    out['regions_ro'] = call(lambda: [int(r.id[1:]) for r in h.sort_regions_in_reading_order(fresh())])
-    for d in ('ltr', 'rtl'):
-        out['column_' + d] = call(lambda: [_lid(x) for x in h.sort_lines_in_column_reading_order(fresh(), reading_direction=d)])
-        if tree['type'] != 'page':
-            out['row_' + d] = call(lambda: [_lid(x) for x in h.sort_lines_in_row_reading_order(fresh(), reading_direction=d)])
+    calls = _doc_calls(tree)
+    for nm, f in calls:
+        out[nm] = call(lambda: f(h, fresh()))
+    # (A) one document object through ALL the calls, in an order that depends on the case, each call twice: the
+    # answers must be those for a fresh document, and the document (ids, boxes, order of children) must not change
+    hist = []
+    doc = call(fresh)
+    if 'ok' in doc:
+        doc = doc['ok']
+        snap = call(lambda: _snap_doc(doc))
+        order = list(calls)
+        random.Random(len(specs) * 31 + tree['id'] * 7 + len(tree['kids'])).shuffle(order)
+        for nm, f in order + order[::-1]:
+            v = call(lambda: f(h, doc))
+            if v != out[nm]:
+                hist.append(f'{nm}: {out[nm]} on a fresh document, {v} on a document that went through other calls')
+        if call(lambda: _snap_doc(doc)) != snap:
+            hist.append('ids / boxes / order of the children of the document changed')
+    out['history'] = hist
     return out
 
 
 def _run_regions(regs, dx, dy) -> Dict[str, Any]:
     pdm, _, _ = _real()
     rs = [pdm.PageXMLColumn(doc_id=f"r{r['id']}", coords=pdm.Coords(_box_points(r['box'], dx, dy))) for r in regs]
-    return {'sorted': call(lambda: [int(x.id[1:]) for x in sorted(rs)]),
-            'lt': [[_relval(lambda: a < b) for b in rs] for a in rs]}
+    first = call(lambda: [int(x.id[1:]) for x in sorted(rs)])
+    lt = [[_relval(lambda: a < b) for b in rs] for a in rs]
+    second = call(lambda: [int(x.id[1:]) for x in sorted(rs)])
+    hist = [] if first == second and [int(x.id[1:]) for x in rs] == [r['id'] for r in regs] else \
+        [f'sorted(regions): {first} then {second} on the same objects; input list {[x.id for x in rs]}']
+    return {'sorted': first, 'lt': lt, 'history': hist}
 
 
 # ------------------------------------------------------------------------------------------
@@ -480,13 +550,14 @@ def _lattice_lines():
     return out
 
 
+@guarded
 class C15(Check):
     pid = 'C15'
     props_module = 'PagexmlModel.Props.C15'
     anchors = {
         'pagexml/helper/pagexml_helper.py': ['horizontal_group_lines', 'sort_lines_in_reading_direction',
                                              'sort_lines_in_row_reading_order', 'sort_lines_in_column_reading_order',
-                                             'sort_regions_in_reading_order'],
+                                             'sort_regions_in_reading_order', 'sort_lines_in_reading_order'],
         'pagexml/model/pagexml_document_model.py': ['PageXMLTextLine.__lt__', 'PageXMLTextLine.is_below',
                                                     'PageXMLTextLine.is_next_to', 'sort_lines',
                                                     'PageXMLTextRegion.__lt__', 'get_horizontal_overlap',
@@ -763,6 +834,11 @@ class C15(Check):
             reqs.append({'p': 'C15', 'op': 'column_order', 'args': {'doc': mt, 'dir': d}})
             if tree['type'] != 'page':
                 reqs.append({'p': 'C15', 'op': 'row_order', 'args': {'doc': mt, 'dir': d}})
+        # the dispatcher sort_lines_in_reading_order (Model: sortLinesInReadingOrder), every option combination
+        for d in ('ltr', 'rtl'):
+            reqs.append({'p': 'C15', 'op': 'reading_order', 'args': {'doc': mt, 'dir': d, 'row': False}})
+            if tree['type'] != 'page':
+                reqs.append({'p': 'C15', 'op': 'reading_order', 'args': {'doc': mt, 'dir': d, 'row': True}})
         return reqs
 
     # ---- comparison up to the processing order of exact ties (see "tie orders" at the top of the module) ----
@@ -831,11 +907,19 @@ class C15(Check):
             names.append('column_' + d)
             if 'row_' + d in impl_doc:
                 names.append('row_' + d)
-        for nm, a in zip(names, answers):
-            if impl_doc[nm] == a:
+        # the dispatcher sort_lines_in_reading_order(doc, row_order, reading_direction) has a model of its own
+        # (sortLinesInReadingOrder, op reading_order: row order iff row_order, column order otherwise, in the direction
+        # asked for); the real answers with the options by keyword (disp_*) and by position (pos_*) are compared with it
+        entries = [(nm, nm, a) for nm, a in zip(names, answers)]
+        for nm, a in zip(names[1:], answers[len(names):]):
+            for pre in ('disp_', 'pos_'):
+                if pre + nm in impl_doc:
+                    entries.append((pre + nm, nm, a))
+        for shown, nm, a in entries:
+            if impl_doc[shown] == a:
                 continue
             if exact_only:
-                return f'{nm}: impl={impl_doc[nm]} model={a}'
+                return f'{shown}: impl={impl_doc[shown]} model={a}'
             left_of = {l['id']: l['box'][0] for l in _get_lines(mt)}
             if nm.startswith('row_'):
                 # row order = sort_lines_in_reading_direction(doc.get_lines()): the ties are those of the flat list
@@ -859,7 +943,7 @@ class C15(Check):
                 else:
                     def mk(o, d=nm[7:]):
                         return {'p': 'C15', 'op': 'column_order', 'args': {'doc': o, 'dir': d}}
-            diff = self._some_tie_order([(nm, impl_doc[nm], a, mk)], n, likely, rest, left_of)
+            diff = self._some_tie_order([(shown, impl_doc[shown], a, mk)], n, likely, rest, left_of)
             if diff:
                 return diff
         return None
@@ -917,7 +1001,7 @@ class C15(Check):
             if d:
                 return d
             if case.kind == 'grid' and 'doc' in b:
-                n = len(rest) // 2 if case.input['doc']['type'] != 'page' else 3
+                n = 9 if case.input['doc']['type'] != 'page' else 5     # requests of _doc_requests for the document
                 by_id = {x['id']: x for x in specs}
                 return self._cmp_doc(b['doc'], rest[:n], _model_tree(case.input['doc'], by_id), clean) or \
                     self._cmp_doc(b['flat'], rest[n:], _model_tree(case.input['flat'], by_id), clean)
@@ -967,12 +1051,20 @@ class C15(Check):
                 for d in ('ltr', 'rtl'):
                     if 'ok' in o['rd_' + d] and sorted(o['rd_' + d]['ok']) != with_text:
                         bad(f'direction-perm:{d}', f'{d} order {o["rd_" + d]["ok"]} is not a permutation of {with_text}')
+            for name in ('base', 'shifted'):
+                if out[name].get('history'):
+                    bad('history:lines', f'used objects ({name}): {out[name]["history"][:3]}')
             for fn in ('groups', 'rd_ltr', 'rd_rtl', 'sorted'):
                 if out['base'][fn] != out['shifted'][fn]:
                     bad(f'translate:{fn}', f'{fn} changes under translation by ({inp["dx"]},{inp["dy"]}): '
                                            f'{out["base"][fn]} vs {out["shifted"][fn]}')
         if case.kind == 'grid':
             cells = inp['cells']
+            if OUTSIDE not in case.tags and all(_valid_line(s) for s in cells):
+                for name in ('base', 'shifted'):
+                    for which in ('doc', 'flat'):
+                        if out[name].get(which, {}).get('history'):
+                            bad('history:document', f'used document ({which}, {name}): {out[name][which]["history"][:3]}')
             for fn in ('col_sorted', 'cols_sorted', 'doc', 'flat'):
                 if fn in out['base'] and out['base'][fn] != out['shifted'].get(fn):
                     bad(f'translate:{fn}', f'{fn} changes under translation by ({inp["dx"]},{inp["dy"]})')
@@ -996,6 +1088,9 @@ class C15(Check):
                     fs.extend(self._oracle_doc(case, out, inp['doc'], o['doc'], cells, 'doc'))
                     fs.extend(self._oracle_doc(case, out, inp['flat'], o['flat'], cells, 'flat'))
         if case.kind in ('tree', 'regions'):
+            for name in ('base', 'shifted'):
+                if out[name].get('history'):
+                    bad('history:' + case.kind, f'used objects ({name}): {out[name]["history"][:3]}')
             for fn in out['base']:
                 if fn != 'lt' and out['base'][fn] != out['shifted'][fn]:
                     bad(f'translate:{fn}', f'{fn} changes under translation by ({inp["dx"]},{inp["dy"]})')
@@ -1031,15 +1126,21 @@ class C15(Check):
             for t in leaves:
                 ls = [by_id[i] for i in t['lines'] if by_id[i].get('text') is not None]
                 exp += [s['id'] for s in sorted(ls, key=lambda s: (s['row'], sign * s['col']))]
-            if o['column_' + d].get('ok') != exp:
-                fs.append(Finding('C15:grid:column-reading-order', f'{which}: column reading order ({d}) {o["column_" + d]} '
-                                                                   f'expected {exp}', case, out))
-            if 'row_' + d in o:
-                allv = [s for t in _tree_nodes(tree) for s in (by_id[i] for i in t['lines']) if s.get('text') is not None]
-                expr = [s['id'] for s in sorted(allv, key=lambda s: (s['row'], sign * s['col']))]
-                if o['row_' + d].get('ok') != expr:
-                    fs.append(Finding('C15:grid:row-reading-order', f'{which}: row reading order ({d}) {o["row_" + d]} '
-                                                                    f'expected {expr}', case, out))
+            # every entry point: the function itself, and the dispatcher with the options by keyword / by position
+            for pre, via in (('', ''), ('disp_', ' via sort_lines_in_reading_order(row_order=False)'),
+                             ('pos_', ' via sort_lines_in_reading_order(doc, False, dir)')):
+                if pre + 'column_' + d in o and o[pre + 'column_' + d].get('ok') != exp:
+                    fs.append(Finding('C15:grid:column-reading-order' + (':dispatcher' if pre else ''),
+                                      f'{which}: column reading order ({d}){via} {o[pre + "column_" + d]} '
+                                      f'expected {exp}', case, out))
+            allv = [s for t in _tree_nodes(tree) for s in (by_id[i] for i in t['lines']) if s.get('text') is not None]
+            expr = [s['id'] for s in sorted(allv, key=lambda s: (s['row'], sign * s['col']))]
+            for pre, via in (('', ''), ('disp_', ' via sort_lines_in_reading_order(row_order=True)'),
+                             ('pos_', ' via sort_lines_in_reading_order(doc, True, dir)')):
+                if pre + 'row_' + d in o and o[pre + 'row_' + d].get('ok') != expr:
+                    fs.append(Finding('C15:grid:row-reading-order' + (':dispatcher' if pre else ''),
+                                      f'{which}: row reading order ({d}){via} {o[pre + "row_" + d]} '
+                                      f'expected {expr}', case, out))
         return fs
 
     # ---------------------------------------------------------------- bookkeeping
@@ -1121,6 +1222,11 @@ C15.level_note = (
     'partition / left-to-right / permutation are compared), and sort_regions_in_reading_order up to the order of sibling '
     'regions with equal (top, left); clean grids, inputs without such ties, the relation matrices and sorted() are exact. '
     'Lines without baseline or with an empty box, emptied baselines and direction strings other than ltr/rtl lie outside '
-    'the quantifier: observed and recorded only')
+    'the quantifier: observed and recorded only. Entry points (wave 4): the dispatcher sort_lines_in_reading_order is '
+    'modelled (sortLinesInReadingOrder: row order iff row_order, else column order, direction handed on; '
+    'C15_dispatcher_row_order / _column_order / _is_row_or_column) and called with every combination of row_order and '
+    'ltr/rtl, options by keyword and by position. Histories: every function is called again on the same line list / '
+    'the same document object after all the others, in a case-dependent order, twice; the answers must be those on '
+    'fresh objects and ids, texts, boxes and the order of children must be unchanged (metadata is not observed)')
 
 CHECK = C15()
